@@ -5,24 +5,17 @@
 From Verif Require Import Base.Prelude Model.PyVal Model.ToHashable Model.ToHashableSpec Corr.Run_C15.
 From Verif Require Import Proofs.ToHashableFacts Proofs.C15SpecFacts.
 
-(* ---- key_hashable: to_hashable returns a hashable key.
-   Full statement:  forall fp v k, supported v = true -> to_hashable fp v = Ok k -> py_hashable k = true.
-   It is FALSE for masked arrays with masked elements (known finding masked-array-key-unhashable): *)
-Theorem C15_key_hashable_refuted :
-  exists v k, supported v = true /\ to_hashable true v = Ok k /\ py_hashable k = false.
-Proof. exact key_hashable_refuted. Qed.
-Print Assumptions C15_key_hashable_refuted.
-
-(* proved for every well-formed value without masked elements (pandas values: not covered by the proofs) *)
+(* ---- key_hashable: to_hashable returns a hashable key (masked arrays included since fix f23baae).
+   Full statement = the same for every supported value; pandas values are covered by C15_key_hashable_pandas. *)
 Theorem C15_key_hashable_partial : forall fp v k,
-  wf v = true -> unmasked v = true -> no_pandas v = true ->
+  wf v = true -> no_pandas v = true ->
   to_hashable fp v = Ok k -> py_hashable k = true.
 Proof. exact key_hashable. Qed.
 Print Assumptions C15_key_hashable_partial.
 
 Example C15_key_hashable_nontrivial :   (* {2: [1], 1: (5, {3})} satisfies the hypotheses *)
   let v := PDict [(PInt 2, PList [PInt 1]); (PInt 1, PTuple [PInt 5; PSet [PInt 3]])] in
-  wf v = true /\ unmasked v = true /\ no_pandas v = true /\ exists k, to_hashable true v = Ok k.
+  wf v = true /\ no_pandas v = true /\ exists k, to_hashable true v = Ok k.
 Proof. repeat split; try (vm_compute; reflexivity). eexists. vm_compute. reflexivity. Qed.
 
 (* ---- eq_implies_key_eq: equal values of the same type get equal keys (canonicity of sorted()).
@@ -117,3 +110,11 @@ Print Assumptions C15_memoize_sound_partial.
 Example C15_spec_ok_nontrivial :
   pair_guard (PDict [(PInt 1, PList [PSet [PStr (s "b"); PStr (s "a")]]); (PFloat 10, PTuple [])]) = true.
 Proof. vm_compute. reflexivity. Qed.
+
+(* re-keying after an in-place modification: the key of the mutated object equals the key of an independently built
+   equal value (py_eq k1 k1 by reflexivity: the model has no memory of identity or earlier contents) and equals the
+   earlier key exactly when the value is unchanged *)
+Theorem C15_rekey_partial : forall v w,
+  pair_guard v = true -> pair_guard w = true -> spec_ok (CRekey v w) (run (CRekey v w)) = true.
+Proof. exact spec_ok_rekey. Qed.
+Print Assumptions C15_rekey_partial.
